@@ -503,6 +503,12 @@ class SeriesOps:
             for x in seq:
                 acc = M.invoke(a0, [acc, x], {}, node, "reduce-callee")
             return acc
+        if short == "compress" and len(pos) == 2 and not kw:
+            d_, s_ = I._concrete_seq(I.materialise(pos[0]) if isinstance(pos[0], GenCall) else pos[0]), I._concrete_seq(I.materialise(pos[1]) if isinstance(pos[1], GenCall) else pos[1])
+            if d_ is not None and s_ is not None and not any(isinstance(x, Each) for x in d_ + s_):
+                sel_ = [x[1] if T.is_const(x) else x for x in s_]
+                if all(isinstance(x, (bool, int)) or x is None for x in sel_):
+                    return [x for x, k_ in zip(d_, sel_) if k_]          # itertools.compress over known data and known selectors
         if short == "pairwise" and len(pos) == 1 and not kw and I._concrete_seq(a0) is not None and not any(isinstance(x, Each) for x in I._concrete_seq(a0)):
             seq_ = I._concrete_seq(a0)          # itertools.pairwise / nx.utils.pairwise over known elements: the consecutive pairs
             return [PyTuple([x, y]) for x, y in zip(seq_, seq_[1:])]
@@ -831,9 +837,13 @@ class SeriesOps:
                 return T.C("DataFrame" in ast.unparse(node.args[1]))
             if isinstance(a0, (list, dict, str, int, float)) and not isinstance(a0, bool):
                 tn = ast.unparse(node.args[1])
-                m = {"list": list, "dict": dict, "str": str, "int": int, "float": float, "tuple": tuple}
+                m = {"list": list, "dict": dict, "str": str, "int": int, "float": float, "tuple": tuple, "List": list, "Dict": dict}
                 if tn in m:
                     return isinstance(a0, m[tn])
+                # a tuple of known types: isinstance(x, (int, list))
+                t2 = node.args[1]
+                if isinstance(t2, ast.Tuple) and all(isinstance(e_, ast.Name) and e_.id in m for e_ in t2.elts):
+                    return isinstance(a0, tuple(m[e_.id] for e_ in t2.elts))
             return ("isinstance", to_term(a0), ast.unparse(node.args[1]))
         if fn in ("hasattr",):
             return ("hasattr", to_term(a0), to_term(pos[1]))
